@@ -377,9 +377,8 @@ def prepareMergeOps (st : St V) : Option (St V) :=
   | none => some st
   | some b => (mergeOps b st.ops).map fun ops => { st with ops := ops }
 
-/-- `digest(new_leaves)`: the new state, the leaves handed to `handle_new_leaf` in order, the result -/
-def digest (sepf : Nat → Nat → Option Nat) (st : St V) : Option (St V × List (Leaf V) × DigestResult) :=
-  let st := (keepUpTo st none).1
+/-- the two `try_build_leaves` calls of `digest` (bulk split, split) -/
+def digestBuild (sepf : Nat → Nat → Option Nat) (st : St V) : Option (St V × List (Leaf V)) :=
   let r1 := if st.gauge.body > BULK_THRESHOLD then tryBuildLeaves sepf st BULK_TARGET else some (st, [])
   match r1 with
   | none => none
@@ -387,22 +386,31 @@ def digest (sepf : Nat → Nat → Option Nat) (st : St V) : Option (St V × Lis
     let r2 := if st.gauge.body > BODY then tryBuildLeaves sepf st (st.gauge.body / 2) else some (st, [])
     match r2 with
     | none => none
-    | some (st, l2) =>
-      if st.gauge.body == 0 then some ({ st with sepOv := none }, l1 ++ l2, .finished)
-      else if st.gauge.body ≥ MERGE || st.cutoff.isNone then
-        match buildLeaf st.base st.ops with
-        | none => none
-        | some ents =>
-          some ({ st with ops := [], gauge := {}, sepOv := none },
-            l1 ++ l2 ++ [⟨separator st, ents, st.cutoff⟩], .finished)
-      else
-        let sov? : Option Nat :=
-          match st.sepOv with
-          | some s => some s
-          | none => st.base.map (·.sep)                 -- `self.base.as_ref().unwrap().separator`
-        match sov?, prepareMergeOps { st with sepOv := sov? }, st.cutoff with
-        | some _, some st', some c => some (st', l1 ++ l2, .needsMerge c)
-        | _, _, _ => none
+    | some (st, l2) => some (st, l1 ++ l2)
+
+/-- the separator override of a leaf that needs a merge: the pending one, else
+`self.base.as_ref().unwrap().separator` (`none`: the `unwrap` panics) -/
+def mergeSep (st : St V) : Option Nat :=
+  match st.sepOv with
+  | some s => some s
+  | none => st.base.map (·.sep)
+
+/-- `digest(new_leaves)`: the new state, the leaves handed to `handle_new_leaf` in order, the result -/
+def digest (sepf : Nat → Nat → Option Nat) (st : St V) : Option (St V × List (Leaf V) × DigestResult) :=
+  match digestBuild sepf (keepUpTo st none).1 with
+  | none => none
+  | some (st, ls) =>
+    if st.gauge.body == 0 then some ({ st with sepOv := none }, ls, .finished)
+    else if st.gauge.body ≥ MERGE || st.cutoff.isNone then
+      match buildLeaf st.base st.ops with
+      | none => none
+      | some ents =>
+        some ({ st with ops := [], gauge := {}, sepOv := none },
+          ls ++ [⟨separator st, ents, st.cutoff⟩], .finished)
+    else
+      match mergeSep st, prepareMergeOps { st with sepOv := mergeSep st }, st.cutoff with
+      | some _, some st', some c => some (st', ls, .needsMerge c)
+      | _, _, _ => none
 
 /-! ## the loop of `leaf_stage.rs::run_worker` (one worker over the whole tree, no range extension) -/
 
